@@ -134,40 +134,49 @@ Proof. exact N_idem. Qed.
 Print Assumptions C17_roundtrip_idempotent.
 
 (* ---- comments ----
-   Full statement (FALSE for the current code):
-     forall c, In c (comment_lines f) -> In c (f_lines (write_file R f k)).
-   Refuted: the trailing comment of "resources:\n- a.yaml\n# trailing comment\n" is in no rewrite. *)
-Theorem C17_comments_refuted :
-  exists f c, In c (comment_lines f) /\
-              forall (R : kust -> string -> list line) k,
-                (forall k n l, In l (R k n) -> is_comment_or_blank l = false) ->
-                ~ In c (f_lines (write_file R f k)).
-Proof. exact comments_refuted. Qed.
-Print Assumptions C17_comments_refuted.
-
-(* What does hold: the comment lines of the original file are, in order, exactly the comment lines
-   of the rewritten file followed by the forgotten ones (those pending at EOF) ... *)
-Theorem C17_comments_partial :
+   Until /repo commit f15d834 the comment lines pending at EOF were forgotten by every rewrite
+   (finding trailing-comment-dropped; the former theorems C17_comments_refuted / _partial recorded
+   that).  The repaired code keeps them (mf.trailingComments), so the full statement now holds:
+   the comment-or-blank lines of the rewritten file are EXACTLY those of the original — every
+   occurrence, in the same order, an unterminated comment tail included (it comes back
+   newline-terminated) — under (D): no rendered field contains a comment-looking line. *)
+Theorem C17_comments_kept :
   forall (R : kust -> string -> list line),
     (forall k n l, In l (R k n) -> is_comment_or_blank l = false) ->
-    forall f k, comment_lines f = comment_lines (write_file R f k) ++ forgotten_comments f.
-Proof. exact comments_partial. Qed.
-Print Assumptions C17_comments_partial.
+    forall f k, comment_lines (write_file R f k) = comment_lines f.
+Proof. exact comments_kept. Qed.
+Print Assumptions C17_comments_kept.
 
-(* ... and for a file with at least one recognised field line the forgotten ones are exactly the
-   trailing ones: the comment lines after the last terminated non-comment line (+ a comment tail) *)
-Theorem C17_forgotten_is_trailing :
-  forall f, existsb is_field_line (f_lines f) = true -> forgotten_comments f = trailing_comments f.
+(* the comment lines split, in order, into those attached to fields and the trailing ones; with at
+   least one recognised field line the trailing ones are the comment lines after the last terminated
+   non-comment line (+ a comment tail) *)
+Theorem C17_comments_decomposition :
+  forall f, comment_lines f = kept_comments (parse_commented_fields f) ++ trailing_kept f.
+Proof. exact comments_kept_or_forgotten. Qed.
+Print Assumptions C17_comments_decomposition.
+
+Theorem C17_trailing_kept_is_trailing_block :
+  forall f, existsb is_field_line (f_lines f) = true -> trailing_kept f = trailing_comments f.
 Proof. exact forgotten_is_trailing. Qed.
-Print Assumptions C17_forgotten_is_trailing.
+Print Assumptions C17_trailing_kept_is_trailing_block.
 
-Theorem C17_comments_kept_unless_trailing :
-  forall (R : kust -> string -> list line),
-    (forall k n l, In l (R k n) -> is_comment_or_blank l = false) ->
-    forall f k, existsb is_field_line (f_lines f) = true -> trailing_comments f = [] ->
-      comment_lines (write_file R f k) = comment_lines f.
-Proof. exact comments_kept_unless_trailing. Qed.
-Print Assumptions C17_comments_kept_unless_trailing.
+(* where they are written: after the original fields, before the fields the command adds — on the
+   next read they therefore attach to the first added field (content and C17_content unaffected) *)
+Theorem C17_trailing_comments_position :
+  forall (R : kust -> string -> list line) f k,
+    f_lines (write_file R f k) =
+    flat_map (fun c => cf_comment c ++ render_field R k (cf_field c)) (parse_commented_fields f) ++
+    trailing_kept f ++
+    flat_map (fun n => if has_field (parse_commented_fields f) n then [] else render_field R k n) gen_field_order.
+Proof. exact trailing_comments_position. Qed.
+Print Assumptions C17_trailing_comments_position.
+
+(* regression: the witness of the former finding keeps its trailing comment *)
+Theorem C17_former_witness_kept :
+  forall render, In "# trailing comment"
+                    (marshal (parse_commented_fields witness_file) (trailing_kept witness_file) render).
+Proof. exact (proj2 (proj2 witness_kept)). Qed.
+Print Assumptions C17_former_witness_kept.
 
 (* ---- obligations over the tables generated from /repo (Gen/KustFields.v) ---- *)
 Theorem Gen_every_field_ordered_or_known_gap :
